@@ -6,7 +6,7 @@
 (* (bit d-1 = day d).  The harness evaluates the same patterns with the    *)
 (* real matchers on every day of the month and compares the masks.         *)
 (* A printed row is                                                        *)
-(*   <<"@@", yo, m, dim, {<<kind, a, b, c, d, e, f, mask>>, ...}, "$$">>   *)
+(*   <<"@@", yo, m, dim, {<<kind, a, b, c, d, e, f, mask, maskD>>, ...}, "$$">> *)
 (* kind 1 date <<a,b,c,d>>; 2 range <<a,b,c>>..<<d,e,f>>; 3 week-n-day     *)
 (* <<a,b,c>>; 4/5/6 the same three wrapped in a BACnetCalendarEntry.       *)
 (* The invariant CalendarSane is the design obligation on the arithmetic.  *)
@@ -70,6 +70,14 @@ Hit(date, q) ==
 RECURSIVE Mask(_, _)
 Mask(q, d) == IF d = 0 THEN 0 ELSE (IF Hit(<<yo, m, d>>, q) THEN 2 ^ (d - 1) ELSE 0) + Mask(q, d - 1)
 
+\* the same under the named deviation Calendar!MatchRangeD (only used to label a disagreement as the known finding)
+HitD(date, q) ==
+    IF q[1] = 2 THEN MatchRangeD(TRUE, date, <<q[2], q[3], q[4]>>, <<q[5], q[6], q[7]>>)
+    ELSE InCalendarEntryD(TRUE, date, [kind |-> "range", s |-> <<q[2], q[3], q[4]>>, e |-> <<q[5], q[6], q[7]>>])
+RECURSIVE MaskD(_, _)
+MaskD(q, d) == IF d = 0 THEN 0 ELSE (IF HitD(<<yo, m, d>>, q) THEN 2 ^ (d - 1) ELSE 0) + MaskD(q, d - 1)
+Row(q) == LET mk == Mask(q, Dim) IN q \o <<mk, IF q[1] \in {2, 5} THEN MaskD(q, Dim) ELSE mk>>
+
 \* two-level fan-out (root -> year -> month) so that the per-month work is spread over TLC's workers
 Init == yo = -1 /\ m = 0
 Next ==
@@ -95,5 +103,5 @@ CalendarSane == m = 0 \/
     /\ \A d \in 1..Dim : Cardinality({wk \in 1..5 : MatchWeek(<<yo, m, d>>, wk)}) = 1
     /\ \A d \in 1..Dim : Cardinality({wk \in 6..9 : MatchWeek(<<yo, m, d>>, wk)}) = (IF d > Dim - 28 THEN 1 ELSE 0)
 
-Emit == m = 0 \/ PrintT(<<"@@", yo, m, Dim, {q \o <<Mask(q, Dim)>> : q \in Pats}, "$$">>)
+Emit == m = 0 \/ PrintT(<<"@@", yo, m, Dim, {Row(q) : q \in Pats}, "$$">>)
 =============================================================================
